@@ -97,6 +97,12 @@ def get_yaml_default_dumper():
     class DefaultDumper(yaml.SafeDumper):
         pass
 
+    def str_representer(dumper, data):
+        """Double quotes strings with unicode line breaks, which are normalized when read from other styles."""
+        style = '"' if any(ch in data for ch in "\x85\u2028\u2029") else None
+        return dumper.represent_scalar("tag:yaml.org,2002:str", data, style=style)
+
+    DefaultDumper.add_representer(str, str_representer)
     set_float_implicit_resolver(DefaultDumper)
 
     yaml_default_dumper = DefaultDumper
@@ -253,16 +259,24 @@ def yaml_comments_dump(data, parser):
     return formatter.add_yaml_comments(dump)
 
 
+json_chars_not_readable_as_yaml = re.compile("[\x7f-\x9f\u2028\u2029\ufffe\uffff]")
+
+
+def escape_json_chars_not_readable_as_yaml(text: str) -> str:
+    """Escapes characters, only possible inside strings, which a yaml loader rejects or normalizes."""
+    return json_chars_not_readable_as_yaml.sub(lambda m: f"\\u{ord(m.group()):04x}", text)
+
+
 def json_compact_dump(data):
     import json
 
-    return json.dumps(data, separators=(",", ":"), **dump_json_kwargs)
+    return escape_json_chars_not_readable_as_yaml(json.dumps(data, separators=(",", ":"), **dump_json_kwargs))
 
 
 def json_indented_dump(data):
     import json
 
-    return json.dumps(data, indent=2, **dump_json_kwargs) + "\n"
+    return escape_json_chars_not_readable_as_yaml(json.dumps(data, indent=2, **dump_json_kwargs)) + "\n"
 
 
 def toml_dump(data):
